@@ -259,7 +259,7 @@ def translate():
         lines.append(f"let g := if v =? {zc(k)} then {new} else g in")
     call = "\n  ".join(lines) + "\n  g"
     text = f"""(* GENERATED by translator/plink2coq.py from {REPO}/bio2zarr/plink.py: encode_genotypes_slice *)
-From Coq Require Import ZArith List Bool.
+From Coq Require Import ZArith List Bool String.
 From B2Z Require Import Base.PlinkOps.
 Import ListNotations.
 Open Scope Z_scope.
@@ -291,11 +291,133 @@ Definition gen_final_flushes : list buf := [ {"; ".join(finals)} ].
     return text
 
 
+def translate_convert():
+    """plink.convert: the arrays it creates and how the work is cut into slices and submitted"""
+    tree = ast.parse(open(os.path.join(REPO, "bio2zarr/plink.py")).read())
+    fn = next((n for n in tree.body if isinstance(n, ast.FunctionDef) and n.name == "convert"), None)
+    if fn is None:
+        raise Unsupported("convert not found")
+    body = strip(fn.body)
+    SC = {"m": "m", "n": "n", "ploidy": "ploidy", "variants_chunk_size": "vcs", "samples_chunk_size": "scs"}
+    lists = {}          # local list variable -> list of symbols
+    arrays = []         # (name, dtype, shape syms, chunk syms)
+    last_var = None     # array bound to the local handed to chunk_aligned_slices
+    bound = {}          # local name -> array index
+    slices_from = None
+    nslices = None
+    submitted = consolidated = False
+    ploidy = None
+
+    def syms(e):
+        if isinstance(e, ast.Call) and src(e.func) == "list" and len(e.args) == 1 and isinstance(e.args[0], ast.Name) and e.args[0].id in lists:
+            return list(lists[e.args[0].id])
+        if isinstance(e, (ast.List, ast.Tuple)):
+            out = []
+            for x in e.elts:
+                t = src(x)
+                if t not in SC:
+                    raise Unsupported("convert: size: " + t)
+                out.append(SC[t])
+            return out
+        raise Unsupported("convert: shape / chunks: " + src(e)[:80])
+
+    helpers = {}        # local helper name -> (name param, dtype param): def h(name, dtype): a = root.empty(name=name, dtype=dtype, shape=list(shape), chunks=list(chunks), ..); ..; return a
+
+    def helper_call(c):
+        if isinstance(c, ast.Call) and isinstance(c.func, ast.Name) and c.func.id in helpers and len(c.args) == 2 and not c.keywords \
+                and all(isinstance(a, ast.Constant) and isinstance(a.value, str) for a in c.args):
+            return c.args[0].value, c.args[1].value
+        return None
+
+    for st in body:
+        t = src(st)
+        if isinstance(st, ast.FunctionDef):
+            hb = strip(st.body)
+            ps = [a.arg for a in st.args.args]
+            ok = len(ps) == 2 and len(hb) >= 2 and isinstance(hb[0], ast.Assign) and isinstance(hb[0].value, ast.Call) and src(hb[0].value.func) == "root.empty" \
+                and isinstance(hb[-1], ast.Return) and src(hb[-1].value) == src(hb[0].targets[0])
+            if ok:
+                kw = {k.arg: src(k.value) for k in hb[0].value.keywords if k.arg}
+                ok = kw.get("name") == ps[0] and kw.get("dtype") == ps[1] and kw.get("shape") == "list(shape)" and kw.get("chunks") == "list(chunks)" \
+                    and all("attrs" in src(x) for x in hb[1:-1])
+            if not ok:
+                raise Unsupported("convert: local helper: " + t[:100])
+            helpers[st.name] = tuple(ps)
+            continue
+        hc = helper_call(st.value) if isinstance(st, (ast.Assign, ast.Expr)) else None
+        if hc:
+            arrays.append((hc[0], hc[1], list(lists["shape"]), list(lists["chunks"])))
+            if isinstance(st, ast.Assign) and isinstance(st.targets[0], ast.Name):
+                bound[st.targets[0].id] = len(arrays) - 1
+            continue
+        if isinstance(st, ast.Assign) and len(st.targets) == 1 and isinstance(st.targets[0], ast.Name):
+            x, v = st.targets[0].id, st.value
+            if x == "ploidy" and isinstance(v, ast.Constant) and isinstance(v.value, int):
+                ploidy = v.value
+                continue
+            if x in ("shape", "chunks", "dimensions") and isinstance(v, ast.List):
+                lists[x] = [SC.get(src(e), src(e)) for e in v.elts]
+                continue
+            if isinstance(v, ast.Call) and src(v.func) in ("root.array", "root.empty"):
+                kw = {k.arg: k.value for k in v.keywords if k.arg}
+                nm = kw["name"].value if "name" in kw else (v.args[0].value if v.args else None)
+                if src(v.func) == "root.empty":
+                    arrays.append((nm, src(kw["dtype"]).strip("'"), syms(kw["shape"]), syms(kw["chunks"])))
+                    bound[x] = len(arrays) - 1
+                else:
+                    arrays.append((nm, src(kw["dtype"]).strip("'"), None, syms(kw["chunks"]) if "chunks" in kw else None))
+                    bound[x] = len(arrays) - 1
+                continue
+            if t == "num_slices = max(1, worker_processes * 4)":
+                nslices = "Z.max 1 (worker_processes * 4)"
+                continue
+            if isinstance(v, ast.Call) and src(v.func) == "core.chunk_aligned_slices" and len(v.args) == 2 and src(v.args[1]) == "num_slices" \
+                    and isinstance(v.args[0], ast.Name) and v.args[0].id in bound and x == "slices":
+                slices_from = bound[v.args[0].id]
+                continue
+            continue        # bed handle, counts, compressor, progress configuration, alleles ...
+        if isinstance(st, ast.AugAssign) and isinstance(st.target, ast.Name) and st.target.id in lists and isinstance(st.value, ast.List):
+            lists[st.target.id] = lists[st.target.id] + [SC.get(src(e), src(e).strip("'")) for e in st.value.elts]
+            continue
+        if isinstance(st, ast.With) and "ParallelWorkManager" in src(st.items[0].context_expr):
+            wb = strip(st.body)
+            if len(wb) == 1 and isinstance(wb[0], ast.For) and src(wb[0].iter) == "slices" and src(wb[0].target) == "(start, stop)" \
+                    and [src(y) for y in strip(wb[0].body)] == ["pwm.submit(encode_genotypes_slice, bed_path, zarr_path, start, stop)"]:
+                submitted = True
+                continue
+            raise Unsupported("convert: the work loop: " + t[:120])
+        if t == "zarr.consolidate_metadata(zarr_path)":
+            if not submitted:
+                raise Unsupported("convert: metadata consolidated before the work is done")
+            consolidated = True
+            continue
+        if isinstance(st, (ast.If, ast.Delete)) or (isinstance(st, ast.Expr) and "attrs" in t) or isinstance(st, ast.Assign):
+            continue
+        raise Unsupported("convert: statement: " + t[:100])
+    if slices_from is None or nslices is None or not (submitted and consolidated) or ploidy is None:
+        raise Unsupported("convert: slices / submission / consolidation not found")
+    nm, dt, shape, chunks = arrays[slices_from]
+    out = "(* plink.convert: the genotype arrays it creates (name, dtype, shape, chunks; m variants, n samples) *)\n"
+    out += "Inductive csym := Sm | Sn | Sploidy | Svcs | Sscs.\n"
+    M = {"m": "Sm", "n": "Sn", "ploidy": "Sploidy", "vcs": "Svcs", "scs": "Sscs"}
+    rows = []
+    for a in arrays:
+        if a[2] is None:
+            continue
+        rows.append(f'("{a[0]}"%string, "{a[1]}"%string, [{"; ".join(M[x] for x in a[2])}], [{"; ".join(M[x] for x in a[3])}])')
+    out += "Definition gen_convert_arrays : list (string * string * list csym * list csym) :=\n  [ " + ";\n    ".join(rows) + " ].\n"
+    out += f"Definition gen_convert_ploidy : Z := {ploidy}.\n"
+    out += f'(* slices = core.chunk_aligned_slices(<array>, num_slices): the array handed over, and num_slices *)\nDefinition gen_convert_slices_array : string := "{nm}"%string.\n'
+    out += f"Definition gen_convert_num_slices (worker_processes : Z) : Z := {nslices}.\n"
+    out += "(* one encode_genotypes_slice(bed_path, zarr_path, start, stop) task per slice; the metadata is consolidated after the pool is left *)\nDefinition gen_convert_submits_every_slice : bool := true.\n"
+    return out
+
+
 def main():
     out_dir = sys.argv[1]
     path = os.path.join(out_dir, "GenPlink.v")
     try:
-        text = translate()
+        text = translate() + "\n" + translate_convert()
         status = "ok"
     except Unsupported as u:
         text = f"(* TRANSLATION FAILED (fail-closed): {u} *)\n"
